@@ -4,6 +4,7 @@ import (
 	"fmt"
 	"go/token"
 	"go/types"
+	"os"
 	"sort"
 	"strings"
 
@@ -680,6 +681,14 @@ func (d *decWalker) walk(b, prev *ssa.BasicBlock) {
 			}
 			return
 		}
+		// a guard of the record loop on the octets that are left: leaving the loop is right only
+		// when not even the shortest record header (4 octets) remains
+		if d.inLoop {
+			if cont, ok := d.truncationGuard(b, t); ok {
+				d.walk(cont, b)
+				return
+			}
+		}
 		// error / diagnostic branch: must not store anything the layout depends on; follow the branch that continues
 		s0, s1 := b.Succs[0], b.Succs[1]
 		if endsInPanic(s0) {
@@ -698,6 +707,92 @@ func (d *decWalker) walk(b, prev *ssa.BasicBlock) {
 		}
 	case *ssa.Return, *ssa.Panic:
 	}
+}
+
+// truncationGuard: `if <cursor + k compared with len(data)> { leave the loop }`.  Returns the
+// edge that stays in the loop when the guard is one; fails (with the octet count as witness)
+// when the leaving edge is taken although a complete record header may still be there.
+func (d *decWalker) truncationGuard(b *ssa.BasicBlock, ifi *ssa.If) (*ssa.BasicBlock, bool) {
+	bo, ok := ifi.Cond.(*ssa.BinOp)
+	if !ok {
+		return nil, false
+	}
+	switch bo.Op {
+	case token.LSS, token.LEQ, token.GTR, token.GEQ:
+	default:
+		return nil, false
+	}
+	diff := polyAdd(d.fe.eval(bo.X), d.fe.eval(bo.Y), -1)
+	if os.Getenv("CHFCHECK_DEBUG") != "" {
+		fmt.Fprintf(os.Stderr, "truncationGuard: %s %s %s\n", d.fe.eval(bo.X), bo.Op, d.fe.eval(bo.Y))
+	}
+	var k, sLen, sCur int64
+	nLen, nCur := 0, 0
+	for mono, coef := range diff {
+		switch {
+		case mono == "":
+			k = coef
+		case (strings.HasPrefix(mono, "len(") || strings.HasPrefix(mono, "call:len@")) && !strings.Contains(mono, monoSep):
+			sLen, nLen = coef, nLen+1
+		case strings.HasPrefix(mono, "loop:") && !strings.Contains(mono, monoSep):
+			sCur, nCur = coef, nCur+1
+		default:
+			return nil, false
+		}
+	}
+	if nLen != 1 || nCur != 1 || sLen != -sCur || (sLen != 1 && sLen != -1) {
+		return nil, false
+	}
+	// the loop head: the block that dominates b and is the target of a back edge
+	stays := func(s *ssa.BasicBlock) bool {
+		seen := map[*ssa.BasicBlock]bool{}
+		stack := []*ssa.BasicBlock{s}
+		for len(stack) > 0 {
+			x := stack[len(stack)-1]
+			stack = stack[:len(stack)-1]
+			if seen[x] {
+				continue
+			}
+			seen[x] = true
+			if x != b && x.Dominates(b) {
+				for _, p := range x.Preds {
+					if x.Dominates(p) && p != x {
+						return true // reached a loop head that encloses the guard
+					}
+				}
+			}
+			stack = append(stack, x.Succs...)
+		}
+		return false
+	}
+	s0, s1 := b.Succs[0], b.Succs[1]
+	st0, st1 := stays(s0), stays(s1)
+	if st0 == st1 {
+		return nil, false
+	}
+	exitOnTrue := !st0
+	holds := func(r int64) bool { // the condition with r octets left
+		v := sLen*r + k
+		switch bo.Op {
+		case token.LSS:
+			return v < 0
+		case token.LEQ:
+			return v <= 0
+		case token.GTR:
+			return v > 0
+		default:
+			return v >= 0
+		}
+	}
+	for r := int64(4); r <= 64; r++ {
+		if holds(r) == exitOnTrue {
+			failUndecided("%s: the decoder leaves the record loop although %d octets are left - enough for the header of a record (4 octets when its release identifier is not 7, then possibly an empty payload): that record is dropped", posOf(d.c, ifi), r)
+		}
+	}
+	if exitOnTrue {
+		return s1, true
+	}
+	return s0, true
 }
 
 func endsInPanic(b *ssa.BasicBlock) bool {
